@@ -160,6 +160,24 @@ def restrict_rows(ctx):
 def weights(ctx):
     mod = ctx.repo.mod(CORE)
     fn = mod.func('restrict_weights')
+    # the weights are ratios of widths: pure arithmetic.  Clipping or
+    # selecting values (a floor on the dual widths, `np.where` on a size)
+    # ties them to an absolute length and they stop being the
+    # linear-interpolation weights for some grids
+    clip = [n for n in ast.walk(fn) if isinstance(n, ast.Call) and
+            ast.unparse(n.func) in ('max', 'min', 'np.maximum', 'np.minimum',
+                                    'np.clip', 'np.where', 'np.fmax',
+                                    'np.fmin', 'np.round', 'round',
+                                    'np.around')]
+    ctx.check('C04.W.weights', 'restrict_weights is pure width arithmetic',
+              not clip, 'the weights are computed with '
+              f'`{ast.unparse(clip[0]) if clip else ""}`: values are clipped '
+              '/ selected against a constant, so the weights are not '
+              'h_a/(h_a+h_b) for every grid (not scale invariant) and the '
+              'restriction is not the transpose of the prolongation',
+              ctx.where(mod, clip[0] if clip else fn))
+    if clip:
+        return
     pn = au.params(fn)
     ctx.anchor(len(pn) == 6, 'restrict_weights(nodes, cell_centers, h, cnodes, '
                'ccell_centers, ch)')
